@@ -23,6 +23,9 @@ opt color · `InnerGlowInfo` body opt<n> opt color · `BevelInfo` version angle 
 shOpacity enabled useGlobalAngle direction opt color opt color · `SolidFillInfo` version <hex> color opacity enabled color ·
 `EffectsLayer` version <n> (<key hex> <class 0..5> info)*n (0 common, 1 shadow, 2 outer glow, 3 inner glow, 4 bevel, 5 solid fill).
 
+Unit 4 classes: `VirtualMemoryArray` isWritten opt(depth <4> n*4 pixelDepth compression <hex>) · `VirtualMemoryArrayList` version
+<n> n* <n> array* · `Pattern` version mode <n> int* name <hex id> opt(<n> (<n> n*)*) list · `Patterns` <n> pattern*.
+
 Unit 1 classes: `LayerInfoBlock` (tokens of a LayerInfo), `TaggedBlock` (signature key payload, payload = `0 <hex>` raw |
 `1 <LayerInfo>`), `PSD` (the deep document: header, colour mode data, resources, layer info, global mask info,
 typed blocks, image data; `version` is ignored, `pad` is the layer-info padding).
@@ -33,6 +36,7 @@ import Driver.Descriptor
 import PsdVerif.Model.PayloadLayerInfo
 import PsdVerif.Model.PayloadSimple
 import PsdVerif.Model.PayloadEffects
+import PsdVerif.Model.PayloadPatterns
 import PsdVerif.Model.DescriptorTables
 
 namespace Driver.Payload
@@ -182,6 +186,24 @@ def pEffectsLayer : P EffectsLayer := do
   pure ⟨v, items⟩
 def tEffectsLayer (x : EffectsLayer) : T := tNat x.version ++ tList (fun (kv : B × Effect) => tBytes kv.1 ++ tEffect kv.2) x.items
 
+/-! ### unit 4 tokens -/
+
+def pVMA : P VMA := do
+  let iw ← pNat
+  let c ← pOpt (do let dp ← pNat; let r ← pList pNat; let pd ← pNat; let cm ← pNat; let dt ← pBytes; pure (⟨dp, r, pd, cm, dt⟩ : VMAContent))
+  pure ⟨iw, c⟩
+def tVMA (x : VMA) : T :=
+  tNat x.isWritten ++ tOpt (fun (c : VMAContent) => tNat c.depth ++ tList tNat c.rectangle ++ tNat c.pixelDepth ++ tNat c.compression ++
+    tBytes c.data) x.content
+def pVMAL : P VMAL := do let v ← pNat; let r ← pList pNat; let cs ← pList pVMA; pure ⟨v, r, cs⟩
+def tVMAL (x : VMAL) : T := tNat x.version ++ tList tNat x.rectangle ++ tList tVMA x.channels
+def pPattern : P Pattern := do
+  let v ← pNat; let m ← pNat; let pt ← pList pInt; let nm ← pStr; let pid ← pBytes; let ct ← pOpt (pList (pList pNat)); let dt ← pVMAL
+  pure ⟨v, m, pt, nm, pid, ct, dt⟩
+def tPattern (x : Pattern) : T :=
+  tNat x.version ++ tNat x.imageMode ++ tList tInt x.point ++ tStr x.name ++ tBytes x.patternId ++
+  tOpt (tList (tList tNat)) x.colorTable ++ tVMAL x.data
+
 /-! ### answers -/
 
 def encOut (r : Except Err W) (wf : Bool) (after : T) : String :=
@@ -228,6 +250,10 @@ def encCmd (cls : String) (v pad : Nat) (toks : String) : String :=
   | "BevelInfo" => pcEnc BevelInfo.codec pBevel toks
   | "SolidFillInfo" => pcEnc SolidFillInfo.codec pSolidFill toks
   | "EffectsLayer" => pcEnc EffectsLayer.codec pEffectsLayer toks
+  | "VirtualMemoryArray" => pcEnc VMA.codec pVMA toks
+  | "VirtualMemoryArrayList" => pcEnc VMAL.codec pVMAL toks
+  | "Pattern" => pcEnc Pattern.codec pPattern toks
+  | "Patterns" => pcEnc Patterns.codec (pList pPattern) toks
   | "LayerInfoBlock" =>
     (match parseAll pLayerInfo toks with
      | some li => encOut (LayerInfoBlock.encW v pad li) (decide (LayerInfoBlock.WF v li)) (tLayerInfo (blockRefresh li))
@@ -274,6 +300,10 @@ def decCmd (cls : String) (v pad : Nat) (d : B) (p : Nat) : String :=
   | "BevelInfo" => pcDec BevelInfo.codec tBevel d p
   | "SolidFillInfo" => pcDec SolidFillInfo.codec tSolidFill d p
   | "EffectsLayer" => pcDec EffectsLayer.codec tEffectsLayer d p
+  | "VirtualMemoryArray" => pcDec VMA.codec tVMA d p
+  | "VirtualMemoryArrayList" => pcDec VMAL.codec tVMAL d p
+  | "Pattern" => pcDec Pattern.codec tPattern d p
+  | "Patterns" => pcDec Patterns.codec (tList tPattern) d p
   | "LayerInfoBlock" => decOut tLayerInfo (LayerInfoBlock.dec v d p)
   | "TaggedBlock" => decOut (tOpt tTBlock) (TBlock.dec v pad d p)
   | "PSD" => decOut tDeepPSD (DeepPSD.read d p)
